@@ -342,6 +342,10 @@ fn do_request(env: &WorkerEnv, scn: &Scn, req: &Req, thread: usize, idx: usize, 
                         Err(_) => out_arg.clone(),
                     });
                     stdin_data = None;
+                } else if req.alias.as_deref() == Some("stdin-redirect") {
+                    args.push("-o".into());
+                    args.push(in_name.into());
+                    stdin_data = None;
                 } else {
                     stdin_data = Some(doc.as_slice());
                 }
@@ -362,6 +366,7 @@ fn do_request(env: &WorkerEnv, scn: &Scn, req: &Req, thread: usize, idx: usize, 
                         env_remove: vec![],
                         timeout: Duration::from_secs(20),
                         stdout_to: if req.fs_fault.as_deref() == Some("stdout-dev-full") { Some(PathBuf::from("/dev/full")) } else { None },
+                        stdin_file: if req.alias.as_deref() == Some("stdin-redirect") { Some(inp.clone()) } else { None },
                     },
                 );
                 r.class_only = true;
@@ -567,6 +572,9 @@ impl Engine for C07 {
                 }
                 if fe == "cli-proc-stdio" && damage && f.chance(1, 2) {
                     r.fs_fault = Some("stdout-dev-full".to_string());
+                } else if fe == "cli-proc-stdio" && damage && f.chance(1, 3) {
+                    // `svgdx -o f < f`: standard input IS the output file
+                    r.alias = Some("stdin-redirect".to_string());
                 }
                 if fe.starts_with("cli") && fe != "cli-proc-stdio" {
                     if f.chance(2, 3) {
@@ -724,6 +732,7 @@ impl Engine for C07 {
                         env_remove: vec![],
                         timeout: Duration::from_secs(20),
                         stdout_to: None,
+                        stdin_file: None,
                     },
                 );
                 res.stats.evaluations += 1;
